@@ -300,6 +300,8 @@ class Interp:
                 key = self.key_of(p, e["e"])
                 old = self.read(p, key)
                 new = TOP if not isinstance(old, int) else old + (1 if "++" in op else -1)
+                if isinstance(new, int) and e.get("w"):
+                    new = wrap(new, e["w"], e.get("sg", True))       # unsigned counters wrap (0 - 1 = max), as in C
                 self.write(p, key, new, e.get("ln"))
                 return old if op.startswith("post") else new
             v = self.ev(p, e["e"])
@@ -414,8 +416,14 @@ class Interp:
             if e["op"] != "=":
                 old = self.read(p, key)
                 bop = e["op"][:-1]
-                v = self.ev(p, {"k": "bin", "op": bop, "l": {"k": "int", "v": old}, "r": {"k": "int", "v": v}}) \
-                    if isinstance(old, int) and isinstance(v, int) else TOP
+                # the operation is done in the computation type, the result converted to the type of the left side (both recorded by
+                # the extractor): `size_t left; left -= n` wraps instead of going negative
+                bn = {"k": "bin", "op": bop, "l": {"k": "int", "v": old}, "r": {"k": "int", "v": v}}
+                if e.get("cw"):
+                    bn["w"], bn["sg"] = e["cw"], e.get("csg", True)
+                v = self.ev(p, bn) if isinstance(old, int) and isinstance(v, int) else TOP
+                if isinstance(v, int) and e.get("w"):
+                    v = wrap(v, e["w"], e.get("sg", True))
             if v is TOP and e["op"] == "=" and key is not None and "*" not in l.get("t", "*"):
                 # aggregate copy (a = b with struct operands): copy what is known below b, forget what was known below a
                 rk = self.canon(p, self.key_of(p, e["r"]))
